@@ -19,7 +19,8 @@ class CallMixin:
                 out.append((vals, s))
                 continue
             fv = vals[0]
-            args = vals[1:1 + len(e.args)]
+            args = [x for a in vals[1:1 + len(e.args)]
+                    for x in (a.a[0].a[0] if a.k == 'star' and a.a[0].k == 'tuple' else [a])]
             kwvals = vals[1 + len(e.args):]
             kwargs = {}
             starkw = None
@@ -96,6 +97,13 @@ class CallMixin:
             return self.after_call(ev, res)
         if k == 'builtin':
             return self.call_builtin(fv.a[0], args, kwargs, node, st)
+        if k == 'ext' and fv.a[0] == 'operator.methodcaller' and len(args) == 1 and isinstance(fv.a[1], int):
+            # operator.methodcaller('name', *a, **kw)(obj)  ==  obj.name(*a, **kw)
+            mev = st.trace[fv.a[1]]
+            margs = mev.d.get('args') or []
+            if margs and margs[0].is_const and isinstance(margs[0].val, str):
+                return self.call_method(args[0], margs[0].val, list(margs[1:]), dict(mev.d.get('kwargs') or {}),
+                                        node, st, None)
         # unknown callee: user function, parameter, closure variable
         ev = self.emit(st, 'UCALL', node, callee=fv, args=args, kwargs=kwargs, starkw=starkw)
         res = [(V('ucall', ev.seq), st)]
@@ -128,6 +136,16 @@ class CallMixin:
                 pass
             res = [(V('ext', 'builtins.' + name, ev.seq), st)]
             return self.after_call(ev, res)
+        if name == 'map' and len(args) == 2:
+            # map(f, xs): f applied to the (abstract) element of xs
+            seq = args[1]
+            if seq.k == 'builtin_call':
+                seq = seq
+            elem = seq.a[0][0] if seq.k in ('tuple', 'list') and len(seq.a[0]) == 1 else V('elem', seq)
+            out = []
+            for v, s in self.call_value(args[0], [elem], {}, node, st):
+                out.append((v if isinstance(v, Raise) else V('comp', 'map', (v,), id(node)), s))
+            return out
         if name == 'bool' and len(args) == 1 and not args[0].is_const:
             return [(args[0], st)]     # only its truthiness is ever used
         if name == 'str' and args and args[0].is_const:
@@ -323,6 +341,8 @@ class CallMixin:
             env[p] = a
         if f.vararg:
             env[f.vararg] = tup(pos[len(params):])
+            if not params and len(args) == 1 and args[0].k == 'star' and args[0].a[0].k not in ('tuple', 'list'):
+                env[f.vararg] = args[0].a[0]        # f(*xs) received as *args: the same sequence
         extra = {}
         for k, v in kwargs.items():
             if k in params or k in f.kwonly:
@@ -331,6 +351,8 @@ class CallMixin:
                 extra[k] = v
         if f.kwarg:
             env[f.kwarg] = V('dict', tuple((C(k), v) for k, v in extra.items()))
+            if not extra and starkw is not None:
+                env[f.kwarg] = starkw               # f(**kw) received as **kwargs: the same mapping
         for p in params + f.kwonly:
             if p not in env:
                 d = f.defaults.get(p)
